@@ -48,7 +48,17 @@ def c07_configs(rng: random.Random, case: Dict[str, Any], wide: bool = False) ->
         base.append({'engine': 'featured'})
     for cfg in base:
         cfg['version'] = version
-    return base
+    return [cfg for cfg in base if flat_window_is_harmless(case, cfg)]
+
+
+def flat_window_is_harmless(case: Dict[str, Any], cfg: Dict[str, Any]) -> bool:
+    """the flat window a configuration would really allocate: kept <= 2^24 words (128 MB) or so large that the
+    allocation is certain to fail (>= 2^45 words) - the harness must not ask the machine for tens of gigabytes."""
+    limit = cfg.get('flat_max_words') or cfg.get('flat_env') or (1 << 23)
+    if cfg.get('engine') != 'native' or cfg.get('no_flat') or cfg.get('alloc_fail'):
+        return True
+    window = max([min(s + n, limit) for s, n in case['segments'] if s < limit] or [0])
+    return window <= (1 << 24) or window >= (1 << 45)
 
 
 def interesting_words(case: Dict[str, Any], ref: RefMachine, rng: random.Random, extra: int = 12) -> List[int]:
